@@ -94,7 +94,7 @@ func runC09(p *an.Prog, r *an.Run, tier string) {
 		h := li.Before[a.In]
 		held := false
 		for k, w := range h {
-			if strings.HasSuffix(string(k), ".mu") && li.Fields[k] != nil && li.Fields[k].Name() == "mu" {
+			if strings.HasSuffix(string(k), ".mu") && li.Fields[k] != nil && an.Ident(li.Fields[k].Name()) == "mu" {
 				if w || a.Kind == "lookup" || a.Kind == "len" || a.Kind == "range" {
 					held = true
 				}
@@ -391,7 +391,7 @@ func runC09(p *an.Prog, r *an.Run, tier string) {
 		if fn.Pkg == nil || fn.Pkg.Pkg.Path() != an.Module || fn.Signature.Recv() == nil {
 			continue
 		}
-		if n := namedOf(fn.Signature.Recv().Type()); n == nil || n.Obj().Name() != "server" {
+		if n := namedOf(fn.Signature.Recv().Type()); n == nil || an.Ident(n.Obj().Name()) != "server" {
 			continue
 		}
 		for _, c := range an.Calls(fn, false) {
@@ -424,7 +424,7 @@ func runC09(p *an.Prog, r *an.Run, tier string) {
 					return false
 				}
 				if u, ok := c.Common().Value.(*ssa.UnOp); ok && u.Op == token.MUL {
-					if fv := an.FieldOf(u.X); fv != nil && fv.Name() == "onDisconnect" {
+					if fv := an.FieldOf(u.X); fv != nil && an.Ident(fv.Name()) == "onDisconnect" {
 						if len(c.Common().Args) == 1 {
 							a := c.Common().Args[0]
 							if mi, ok := a.(*ssa.MakeInterface); ok {
@@ -450,7 +450,7 @@ func runC09(p *an.Prog, r *an.Run, tier string) {
 				isHookField := func(v ssa.Value) bool {
 					if u, ok := v.(*ssa.UnOp); ok && u.Op == token.MUL {
 						fv := an.FieldOf(u.X)
-						return fv != nil && fv.Name() == "onDisconnect"
+						return fv != nil && an.Ident(fv.Name()) == "onDisconnect"
 					}
 					return false
 				}
@@ -491,7 +491,7 @@ func runC09(p *an.Prog, r *an.Run, tier string) {
 			if !ok {
 				return
 			}
-			if fv := an.FieldOf(st.Addr); fv == nil || fv.Name() != "onDisconnect" {
+			if fv := an.FieldOf(st.Addr); fv == nil || an.Ident(fv.Name()) != "onDisconnect" {
 				return
 			}
 			if mc, ok := st.Val.(*ssa.MakeClosure); ok {
